@@ -13,6 +13,7 @@ U == { Null,
        ArrV("int", <<>>), ArrV("int", <<IntV(1)>>), ArrV("int", <<IntV(1), IntV(2)>>), ArrV("int", <<IntV(2)>>), ArrV("int", <<Null>>),
        ArrV("text", <<>>), ArrV("real", <<NaN>>), ArrV("real", <<RealV(0, 1)>>), ArrV("real", <<NZero>>),
        Ts(28, 1), Ts(28, 2), Ts(29, 1),
+       TsV(<<2021, 3, 28, 1, 0, 0, 123456>>), TsV(<<2021, 3, 28, 1, 0, 0, 123457>>),        \* two instants within one millisecond
        IvV(0), IvV(2000), IvV(-1000) }
 First == Null
 
